@@ -18,6 +18,8 @@ type profile struct {
 	AnonUnion                                                                         bool // anonymous containers of unions (gounions refuses)
 	SQL                                                                               bool // model-file shape: id fields, foreign keys, comments
 	TagsAll                                                                           bool // every json tag spelling
+	NoNamedTime                                                                       bool // no defined types over time.Time (they have no JSON methods)
+	NoBytes                                                                           bool // no []byte / []uint8 (base64 on the wire)
 	ModShape                                                                          int  // 0: example.com/org/mod, 1: one element, 2: deep, 3: random
 }
 
@@ -117,7 +119,13 @@ func (s *synth) anyType(depth int, byValue []string, allowUnion bool) string {
 		add(2, func() string { s.needTime = true; return "time.Time" })
 	}
 	if s.p.Containers && depth < 2 {
-		add(3, func() string { return "[]" + s.anyType(depth+1, s.structs, s.p.AnonUnion) })
+		add(3, func() string {
+			el := s.anyType(depth+1, s.structs, s.p.AnonUnion)
+			if s.p.NoBytes && (el == "byte" || el == "uint8") {
+				el = "int"
+			}
+			return "[]" + el
+		})
 		add(1, func() string {
 			return fmt.Sprintf("[%d]%s", pick(s.r, []int{0, 1, 2, 5}), s.elemNoSlice(depth+1, byValue))
 		})
@@ -466,7 +474,7 @@ func synthModule(r *rng, p profile, idx int) *modSpec {
 			s.declUnion()
 		case k < 10 && p.Containers:
 			s.declContainer()
-		case k < 11 && p.Time:
+		case k < 11 && p.Time && !p.NoNamedTime:
 			s.declTime()
 		default:
 			if p.Structs {
